@@ -9,11 +9,18 @@
    arcs, then all helices, then all wires; explicit tags positive and distinct;
    automatic tags max+1, max+2, ... in that reading order; sorted by tag) and
    the writer (model order, the tag only when it was given).
-   PARTIAL: tapers / transformations / sources / media / load parameters are
-   compared on the real code by the search oracle (write, read back, write
-   again; same description; same feed impedance), not modelled. *)
+   Third proved part: the numbering of the lumped loads.  Model/LoadOrder.v is
+   the writer (cmdline_loads: the model's loads grouped by kind, each followed by
+   its attachments carrying its position) and the reader (argparse groups the
+   defining options by kind, --attach-load picks by number, the first attachment
+   registers the load).  Fourth: sources (Model/SourceOpts.v: voltage omitted
+   only for a single source of 1 V, pulse omitted only for the default source;
+   the reader pairs pulses and voltages).  Tie: stages `loads`, `srcs`.
+   PARTIAL: tapers / transformations / media / the numeric parameters of loads
+   and sources are compared on the real code by the search oracle (write, read
+   back, write again; same description; same feed impedance), not modelled. *)
 From Coq Require Import ZArith List Bool Arith Permutation.
-From PM Require Import Model.Options Proofs.OptionsP Model.Objects Proofs.ObjectsP.
+From PM Require Import Model.Options Proofs.OptionsP Model.Objects Proofs.ObjectsP Model.LoadOrder Proofs.LoadOrderP Model.SourceOpts Proofs.SourceOptsP.
 Import ListNotations.
 Open Scope nat_scope.
 
@@ -57,3 +64,53 @@ Example C15_objects_example :
   read_objs [mkLine KWire None 1; mkLine KWire (Some 5) 2; mkLine KArc None 3; mkLine KHelix (Some 2) 4; mkLine KWire None 5]%Z
   = Some [mkObj KHelix 2 true 4; mkObj KWire 5 true 2; mkObj KArc 6 false 3; mkObj KWire 7 false 1; mkObj KWire 8 false 5]%Z.
 Proof. vm_compute. reflexivity. Qed.
+
+(* writing the options of the re-read load gives the same attachment options again *)
+Theorem C15_attachments_fixpoint :
+  forall (tags : list Z) (counts : list nat) (by_geo : bool) (ps : list nat),
+    NoDup tags -> length tags = length counts -> Forall (fun p => p < total counts) ps ->
+    exists l, resolve_all tags counts (write_attach tags counts by_geo ps) = Some l /\
+              write_attach tags counts by_geo l = write_attach tags counts by_geo ps.
+Proof. intros tags counts b ps H1 H2 H3. exact (attach_fixpoint_proof tags counts H1 H2 b ps H3). Qed.
+Print Assumptions C15_attachments_fixpoint.
+
+(* load numbering: for EVERY list of lumped loads of any kinds in any registration order (each attached at least
+   once), with any parameters P and attachment options A, the written options are accepted and give the same loads,
+   each with its own attachments in order, in the parser's order (grouped by kind) ... *)
+Theorem C15_load_numbering_round_trip :
+  forall (P A : Type) (M : list (lumped P A)), Forall (fun l => l_att l <> []) M ->
+    read_loads P A (write_loads P A M) = Some (cmdline_loads P A M).
+Proof. exact loads_round_trip. Qed.
+Print Assumptions C15_load_numbering_round_trip.
+
+(* ... which are the model's loads, none lost, none duplicated ... *)
+Theorem C15_load_numbering_same_loads :
+  forall (P A : Type) (M : list (lumped P A)), Permutation (cmdline_loads P A M) M.
+Proof. exact cmdline_loads_perm. Qed.
+Print Assumptions C15_load_numbering_same_loads.
+
+(* ... and writing the re-read model gives the same options *)
+Theorem C15_load_numbering_fixpoint :
+  forall (P A : Type) (M : list (lumped P A)), Forall (fun l => l_att l <> []) M ->
+    option_map (write_loads P A) (read_loads P A (write_loads P A M)) = Some (write_loads P A M).
+Proof. exact loads_fixpoint. Qed.
+Print Assumptions C15_load_numbering_fixpoint.
+
+Example C15_load_numbering_example :
+  write_loads nat nat [mkL LTrap 7 [70]; mkL LImp 8 [80; 81]; mkL LTrap 9 [90]]
+  = [ODef LImp 8; OAtt 0 80; OAtt 0 81; ODef LTrap 7; OAtt 1 70; ODef LTrap 9; OAtt 2 90].
+Proof. vm_compute. reflexivity. Qed.
+
+(* sources: every source list main can produce (the single default source, or one or more explicitly addressed
+   sources with any voltages, 1 V included) is accepted again and reproduced *)
+Theorem C15_sources_round_trip :
+  forall (V : Type) (one : V) (is_one : V -> bool), (forall v, is_one v = true -> v = one) ->
+  forall l : list (src V), wf_srcs V l -> read_srcs V one (write_srcs V is_one l) = Some l.
+Proof. exact sources_round_trip. Qed.
+Print Assumptions C15_sources_round_trip.
+
+(* the writer before the repair omitted every voltage of exactly 1 V: a second source of 1 V made the list unreadable *)
+Theorem C15_sources_before_the_repair_refuted :
+  read_srcs Z 1%Z (flat_map (write_src_before (Z.eqb 1)) [mkSrc 2%Z (SAbs 0) false; mkSrc 1%Z (SAbs 1) false]) = None.
+Proof. exact before_refuted. Qed.
+Print Assumptions C15_sources_before_the_repair_refuted.
